@@ -3,6 +3,7 @@
 From Coq Require Import List Bool NArith String.
 From PC Require Import Base.Cmp Base.Result Model.Pep440 Spec.Pep440Spec Model.VConstraint
      Proofs.VersionFacts Proofs.RangeSpec Proofs.RangeAlg Proofs.RangeOps Proofs.UnionHull Proofs.UnionExact Proofs.Contain Proofs.InterExact Proofs.DiffExact Model.VHyp.
+From PC Require Import Gen.RangeCmp Proofs.GenAgreeRange.
 Import ListNotations.
 
 (* The property at full strength (every constraint shape, the three operations), kept visible.
@@ -137,3 +138,15 @@ Proof. do 3 eexists. repeat split; vm_compute; reflexivity. Qed.
    '>2.0 || 2.0.post2' is a union the implementation builds (the range excludes post-releases of its bound) whose members
    overlap in the plain order; such operands are outside the hypotheses and are counted by the check at run time. *)
 
+
+(* the tie by translation: the bound comparisons of version_range_constraint.py, re-translated from /repo's working tree on
+   this run (coq/Gen/RangeCmp.v), are the functions the theorems above speak about *)
+Theorem C05_comparisons_of_current_source : forall a b,
+  allowed_max_gen a = allowed_max a /\ allows_lower_gen a b = allows_lower a b /\ allows_higher_gen a b = allows_higher a b /\
+  is_strictly_lower_gen a b = is_strictly_lower a b /\ is_strictly_higher_gen a b = is_strictly_higher a b /\
+  is_adjacent_to_gen a b = is_adjacent_to a b.
+Proof.
+  intros a b. split; [apply allowed_max_agrees|]. split; [apply allows_lower_agrees|]. split; [apply allows_higher_agrees|].
+  split; [apply is_strictly_lower_agrees|]. split; [apply is_strictly_higher_agrees|apply is_adjacent_to_agrees].
+Qed.
+Print Assumptions C05_comparisons_of_current_source.
